@@ -20,6 +20,8 @@ def main():
             sys.path.remove(p)
     sys.path.insert(0, verif)
     sys.path.insert(0, job["repo"])
+    if hasattr(sys, "set_int_max_str_digits"):
+        sys.set_int_max_str_digits(0)      # exact rationals of exploding programs have more than 4300 digits
     faulthandler.enable()
     faulthandler.dump_traceback_later(job.get("timeout", 600), exit=True)
     mod = importlib.import_module("sim.check_" + job["check"].lower())
